@@ -161,7 +161,7 @@ def scan_bracket(p, i):
 
 def has_unclosed_bracket_ending_in_dash(p):
     # an unescaped '[' that never closes, at least one set rune, and the pattern ends right after a '-' range operator
-    if not p.endswith("-") or p.endswith("\\-"):
+    if not p.endswith("-") or (len(p) - 1) not in unescaped_positions(p):
         return False
     for i in unescaped_positions(p):
         if p[i] == "[" and scan_bracket(p, i) is None and len(p) - i >= 3:
@@ -254,6 +254,34 @@ def go_group_end(p, i):
     return None
 
 
+CLASSES = ("alnum", "alpha", "ascii", "blank", "cntrl", "digit", "graph", "lower", "print", "punct", "space", "upper", "word", "xdigit")
+
+
+def malformed_closed_bracket(p):
+    """the pattern has a CLOSED bracket expression containing a [. [= element, a [: without a valid class name, or a
+    reversed range: the package may report a syntax error for it (the property allows that)."""
+    for i in unescaped_positions(p):
+        if p[i] != "[":
+            continue
+        e = scan_bracket(p, i)
+        if e is None:
+            continue
+        body = p[i + 1:e - 1]
+        for m in re.finditer(r"\[([:.=])", body):
+            if m.group(1) != ":":
+                return True
+            k = body.find(":]", m.end())
+            if k < 0 or body[m.end():k] not in CLASSES:
+                return True
+        if re.search(r"(\\?.)-(\\?.)", body, re.S):
+            for m in re.finditer(r"(?:\\(.)|(.))-(?:\\(.)|(.))", body, re.S):
+                lo = m.group(1) or m.group(2)
+                hi = m.group(3) or m.group(4)
+                if hi < lo:
+                    return True
+    return False
+
+
 def classify(p, cfg, go, bash_bits):
     """go = {"err":..., "bits":...}; returns (clause, class or None) for a disagreement."""
     err = go.get("err", "")
@@ -269,13 +297,17 @@ def classify(p, cfg, go, bash_bits):
             return "error_on_valid_pattern", "class_opener_in_unclosed_bracket_is_error"
         if ext and "!(" in p and ("extglob !" in err or "multiple extglob" in err or err.startswith("NEG")):
             return "error_on_valid_pattern", "negated_extglob_unsupported_context"
+        if err in ("charClass invalid",) or err.startswith("invalid range"):
+            if malformed_closed_bracket(p):
+                return None, None      # a syntax error for a malformed pattern: allowed by the property
         return "error_on_valid_pattern", None
     # no error: the language differs
     if has_unclosed_bracket_ending_in_dash(p):
         return "language_differs", "unclosed_bracket_ending_in_range_operator"
     if ext and groups:
         unclosed = [g for g in groups if bash_patscan(p, g + 1) is None]
-        if unclosed:
+        go_unclosed = [g for g in groups if go_group_end(p, g + 1) is None]
+        if unclosed and unclosed == go_unclosed:
             g = unclosed[0]
             # bash swallows the rest of the pattern when a wildcard run containing '*' precedes an ill-formed group
             k = g
@@ -287,6 +319,8 @@ def classify(p, cfg, go, bash_bits):
                 return "language_differs", "wildcard_before_unclosed_extglob"
             if cfg == "fold":
                 return "language_differs", "unclosed_extglob_literal_is_case_sensitive_in_bash"
+        if re.search(r"\*[@+]\(\)", p):
+            return "language_differs", "star_before_empty_extglob_group"
         if any(bash_patscan(p, g + 1) != go_group_end(p, g + 1) for g in groups):
             return "language_differs", "extglob_group_end_differs_bare_paren_or_open_bracket"
         if any(p[g] == "!" for g in groups):
@@ -372,8 +406,10 @@ def search(ctx, rows, spec_every):
                 alpha = [ord(s) for s in S[sk][i] if len(s) == 1]
                 spec_cases.append((fb, p, alpha, b))
             if g["bits"] != b:
-                nfail += 1
                 clause, klass = classify(p, cfg, g, b)
+                if clause is None:
+                    continue
+                nfail += 1
                 diff = [S[sk][i][j] for j in range(len(b)) if g["bits"][j] != b[j]][:4]
                 ctx.fail(clause, {"pattern": p, "config": cfg}, klass, {"go_err": g.get("err", ""), "strings_differing": diff,
                                                                        "go": "".join(g["bits"][j] for j in range(len(b)) if g["bits"][j] != b[j])[:4]})
@@ -403,7 +439,7 @@ WITNESSES = ["\\", "a\\", "[a-", "[[:", "x!(a)*", "**(", "@(()", "!(a)@(b)", "*(
 
 
 def run(ctx):
-    ctx.coq_props()
+    ctx.coq_props(extra_targets=["Pattern/CaseEval.vo"])
     binp = ctx.go_build("c17")
     if not binp:
         return
